@@ -33,7 +33,7 @@ DERIVE_NOTE = TB + "; catgen.py reference semantics; verdict per catalogue entry
 for _p, _t in (("C07", "derive skeleton recovered from expanded, type-checked MIR compared with an independent spec of the documented key renaming"),
                ("C08", "derive skeleton vs spec: initial field states, arm states, missing-field phase, FieldState helper summaries"),
                ("C09", "derive skeleton vs spec: contents and effects of the all-comparisons-false arm, tag removal before iteration"),
-               ("C10", "derive skeleton vs spec: tag removal, tag/variant string dispatch tables, fall-through edges"),
+               ("C10", "derive skeleton vs spec: tag removal, tag/variant string dispatch tables, fall-through edges; every non-string kind of the tag value reaches the kind report (CFG reachability per discriminant edge)"),
                ("C11", "derive skeleton vs spec: call sites of user functions, their dominators and argument provenance")):
     import derive_prop as _dp
     CHECKS[_p] = ("other", _t, _dp.TEXT[_p], DERIVE_NOTE, "§5 " + _p)
@@ -73,7 +73,7 @@ CHECKS["C20"] = ("proof", "value-flow composition analysis (which call results c
                  TB + "; the frameworks' own extractors, conversions and IntoResponse impls are trusted (content-type handling, limits not analysed)", "§5 C20")
 
 CHECKS["C14"] = ("other", "dependence (taint through format arguments and helper calls) and decision-table rules over the MIR of the two built-in error types and their helpers",
-                 "Decides dependence and structure, not wording: per ErrorKind arm of JsonError::error and QueryParamError::error the message's format arguments depend on every field the arm binds and on the location description of this call's location; unknown key/value messages call did_you_mean(key|value, accepted) and list all of accepted; arity messages state the length and quote the whole sequence; the text rendered per step is extracted by path enumeration over the renderer (returned string or appended buffer alike) and must be {Origin: nothing, Key: ancestors . key, Index: ancestors [ index ]} with the query variant omitting the separator exactly under the origin; kind and quoted text come from the same value; foreign errors become Unexpected{their text} at the merge location; all answers are Break.",
+                 "Decides dependence and structure, not wording: per ErrorKind arm of JsonError::error and QueryParamError::error the message's format arguments depend on every field the arm binds and on the location description of this call's location; unknown key/value messages call did_you_mean(key|value, accepted) and list all of accepted; arity messages state the length and quote the whole sequence; the text rendered per step is extracted by path enumeration over the renderer (returned string or appended buffer alike) and must be {Origin: nothing, Key: ancestors . key, Index: ancestors [ index ]} with the query variant omitting the separator exactly under the origin; kind and quoted text come from the same value, and the value's string payload is never written with Display/Debug in place of the serialiser; foreign errors become Unexpected{their text} at the merge location; all answers are Break.",
                  TB + "; std formatting prints every argument; wording/punctuation and re-parseability of the rendered path are not decided; 'first report of the keep-going run' follows from C03 + C04", "§5 C14")
 
 NOT_YET = {p: 'check not yet built in this revision of /verif (construction order in DESIGN.md §8); will be claimed when its rule set is armed' for p in []}
